@@ -4,6 +4,7 @@ Abstract instances (generic position: no float threshold within 1e-9, no two des
 under several presentations; each result is projected back to the abstract instance; MMPresent.tla decides the memo
 invariant (every presentation gives the first presentation's abstract answer) and names the failing clauses.
 """
+import copy
 import json
 import os
 import random
@@ -208,6 +209,32 @@ def run(res):
   kept = [i for i in insts if i['tab'] is not None and i['tab']['margin'] >= oracle.REL and tie_free(i)][:count]
   res.extra['dropped_nongeneric_or_tied'] = len(insts) - len(kept)
   jobs = [(i, variants_for(i, rng)) for i in kept]
+  # panels with TWIN geos (one region reported as two identical halves): scores tie exactly, and which twin a search
+  # takes is not specified - but it must not depend on whether the IDs arrive as integers or as strings, nor on the
+  # order of the rows.  Only those presentations are compared on these panels.
+  twins = []
+  for i in kept:
+    if len(twins) >= (100 if thorough else 24):
+      break
+    if i['n'] > 4 or i['n'] < 2:
+      continue
+    t = {k: copy.deepcopy(v) for k, v in i.items() if k not in ('tab', 'exh', 'greedy')}
+    n = t['n']
+    t['id'] = 900000 + i['id']
+    t['n'] = n + 1
+    for (g, d), v in list(t['cells'].items()):
+      if g == 1:
+        t['cells'][(n + 1, d)] = v
+    t['elig'] = list(t['elig']) + [t['elig'][0]]
+    t['ids_kind'] = 'int_twin'
+    t['budget'] = None
+    t['want_budget'] = False
+    t['extra_elig_row'] = False
+    t['family'] = i['family'] + '+twin'
+    twins.append(t)
+  jobs += [(t, [('base', {}), ('ids_as_strings', {'ids_as_str': True}),
+                ('ids_as_strings_shuffled', {'ids_as_str': True, 'shuffle': 1 + t['id'] % 1000})]) for t in twins]
+  kept = kept + twins
   runs = par_mod.pmap(run_group, jobs, chunksize=1)
   groups = [to_tla(i['id'], r) for i, r in zip(kept, runs)]
   verdicts = judge(res, groups, 'memo')
